@@ -267,7 +267,7 @@ def r_loop_carried(cx):
         exclude = set(pt.iter_locals) | counter_locals(f, pt.lp)
         carried = {}
         for what, bb, term in sink_terms(pt):
-            for l in mentions_loopphi(term, h):
+            for l in mentions_loopphi(term, h, f):
                 if l in exclude:
                     continue
                 carried.setdefault(l, []).append((what, bb))
@@ -604,3 +604,46 @@ def r_element_preserve(cx):
                               "of the same element of the input)" % (name, sorted(allowed), m, sorted(extra)), where)
     cx.count("R-ELEMENT-PRESERVE", "writes", n_writes)
     cx.count("R-ELEMENT-PRESERVE", "operators", n_ops)
+
+
+# ---------------------------------------------------------------------------------------------------------------------
+# R-TUPLE-LOOP-COMPLETE: a per-tuple loop visits every tuple, and touches only its own tuple
+
+SET_WIDE = ("stomp",)
+
+
+@rule("R-TUPLE-LOOP-COMPLETE", ["C02", "C10"])
+def r_tuple_loop_complete(cx):
+    """The only way out of a per-tuple loop is the exhaustion of its iterator: a `break` or `return` in the body leaves
+    the tuples after the current one untransformed, uncounted and looking valid (their fate then depends on a
+    neighbour). And the body writes only the current tuple: no set-wide overwrite (CoordinateSet::stomp) in it."""
+    pts = pertuple.all_per_tuple_loops(cx)
+    n = 0
+    for pt in pts:
+        f, lp = pt.f, pt.lp
+        hs = {lp.header} | {s for s in f.succ[lp.header] if s in lp.body}
+        odd = []
+        for (a, b) in lp.exits:
+            if a in hs:
+                continue
+            t = f.term(a)
+            if f.term(b)["k"] in ("unreachable", "resume", "abort"):
+                continue
+            if t["k"] == "call" and b != t.get("target"):
+                continue   # unwinding
+            if t["k"] in ("assert", "drop"):
+                continue
+            odd.append((a, b))
+        wide = [bb for bb, t in f.calls() if bb in lp.body and (f.callee(t) or "").rsplit("::", 1)[-1] in SET_WIDE]
+        n += 1
+        where = cx.where(f.term(odd[0][0])["span"]) if odd else (
+            cx.where(f.term(wide[0])["span"]) if wide else cx.where(f.term(lp.header)["span"]))
+        ok = not odd and not wide
+        cx.ob("R-TUPLE-LOOP-COMPLETE", "%s/loop@%s" % (f.name, _loop_id(pt)), ok,
+              "the per-tuple loop of %s ends only when its iterator is exhausted and writes only the current tuple" % f.name
+              if ok else
+              ("the per-tuple loop of %s can be left before all tuples are visited (break/return in the body): the "
+               "remaining tuples stay untransformed and uncounted, depending on a neighbouring tuple" % f.name if odd else
+               "the per-tuple loop of %s overwrites the whole set (stomp) from inside the body: tuples already "
+               "transformed are wiped because of a neighbour" % f.name), where)
+    cx.count("R-TUPLE-LOOP-COMPLETE", "loops", n)
